@@ -147,11 +147,8 @@ theorem bankMsgSend_orb {cfg : Cfg} {c c' : Ctx} {to denom : String} {amt : Int}
     Ctx.LeAt cfg.orbAddr c c' ∧ c'.bank.bal cfg.orbAddr denom = c.bank.bal cfg.orbAddr denom - amt.toNat := by
   unfold bankMsgSend at h
   simp only [hto] at h
-  split at h
-  · cases h
-  · split at h
-    · cases h
-    · exact ⟨Ctx.send_le h (Or.inr rfl), Ctx.send_from_exact h hne⟩
+  repeat' (first | (cases h; done) | split at h)
+  exact ⟨Ctx.send_le h (Or.inr rfl), Ctx.send_from_exact h hne⟩
 
 /-- The forwarder on the chain's wiring: nothing grows on the orbiter account, and the balance in the
 forwarded denomination — which the precondition fixed at exactly the forwarded amount — is zero afterwards. -/
